@@ -100,32 +100,39 @@ def run(ctx, ck):
     # the labelled sibling (report line "PULSE NO., VOLTAGE MAGNITUDE, PHASE (DEGREES):") fixes the
     # unit of each of the three values; the BASIC writer answers the same prompt
     def triple(q):
+        from ..fmt import written_values
         f = m.func(q)
-        mods = [n for n in walk_no_nested(f.node) if isinstance(n, ast.BinOp) and isinstance(n.op, ast.Mod)
-                and isinstance(n.right, ast.Tuple) and len(n.right.elts) == 3]
+        fl_ = ctx.flow(f)
+        mods = []
+        for n in walk_no_nested(f.node):
+            if isinstance(n, ast.BinOp) and isinstance(n.op, ast.Mod):
+                vals = written_values(n.right, fl_, fl_.node_id_of(n))
+                if len(vals) == 3:
+                    mods.append((n, vals))
         if len(mods) != 1:
             raise AnalysisError('%s: expected one 3-value format, found %d' % (q, len(mods)))
         label = ' '.join(x.value for x in walk_no_nested(f.node) if isinstance(x, ast.Constant)
                          and isinstance(x.value, str))
-        c = prompt_comment(f.module, enclosing_stmt(mods[0]).lineno)
+        c = prompt_comment(f.module, enclosing_stmt(mods[0][0]).lineno)
         return f, mods[0], label, c
     sf, smod, slabel, _ = triple('mininec.Excitation.as_mininec_short')
     bf, bmod, blabel, bcomment = triple('mininec.Excitation.as_basic_input')
     n_deg = 1 if re.search(r'DEG', slabel) else 0
     ck.floor('DEGREES label on the source report line', n_deg, 1)
     ck.info('basic_input_prompt_comment', bcomment)
-    skinds = [expr_unit(a, kinds) for a in smod.right.elts]
-    bkinds = [expr_unit(a, kinds) for a in bmod.right.elts]
+    (smod, svals), (bmod, bvals) = smod, bmod
+    skinds = [expr_unit(a, kinds) for a in svals]
+    bkinds = [expr_unit(a, kinds) for a in bvals]
     ck.ob('R-KIND.degrees', sf.qual, 'deg' in skinds and 'rad' not in skinds, sf.loc(smod),
-          'label asks for DEGREES; writes %s with kinds %s' % ([norm(a) for a in smod.right.elts], skinds))
+          'label asks for DEGREES; writes %s with kinds %s' % ([norm(a) for a in svals], skinds))
     ok = bkinds == skinds
     why = 'BASIC answer %s has the unit kinds %s of the labelled report line' % (
-        [norm(a) for a in bmod.right.elts], bkinds)
+        [norm(a) for a in bvals], bkinds)
     if not ok:
-        bad = [norm(a) for a, k, k2 in zip(bmod.right.elts, bkinds, skinds) if k != k2]
+        bad = [norm(a) for a, k, k2 in zip(bvals, bkinds, skinds) if k != k2]
         why = ('the prompt PULSE NO., VOLTAGE MAGNITUDE, PHASE (DEGREES) is answered with %s (kinds %s) '
                'but the report line with that label writes %s (kinds %s): %s is in radians'
-               % ([norm(a) for a in bmod.right.elts], bkinds, [norm(a) for a in smod.right.elts], skinds, bad))
+               % ([norm(a) for a in bvals], bkinds, [norm(a) for a in svals], skinds, bad))
     ck.ob('R-KIND.degrees', bf.qual, ok, bf.loc(bmod), why)
     # angle conversions in report writers
     n_ang = 0
